@@ -33,7 +33,7 @@ ITEM_ARGS = ["'k'", "'it\\'s \"q\"'", "0", "-1", "None", "1.5", "True", "1", "1.
              "slice(1, 2)", "slice(None, None, 2)", "(slice(1, 2), 3)", "len", "T.a"]
 CALL_ARGS = [("", ""), ("1, 'x'", ""), ("", "k=None"), ("T.a", ""), ("len", ""), ("", "k='it\\'s \"q\"'"), ("'it\\'s \"q\"'", "j=('a\\'b\"c',)")]
 STEPS = [['.', 'a'], ['.', 'T']] + [['[', a] for a in ITEM_ARGS] + [['(', a, k] for a, k in CALL_ARGS] + [['x'], ['X']]
-P_SEGS = ["'a'", "'d.t'", "0", "None", "(1, 2)", "'S'"]
+P_SEGS = ["'a'", "'d.t'", "0", "None", "(1, 2)", "'S'", "('x', 'y')", "()"]
 
 
 def ev(src):
@@ -186,7 +186,10 @@ def run_roundtrip(case):
         x = build_expr(case)
     except Exception as e:
         return R(None, 'unbuildable:' + type(e).__name__, nontrivial=False)
-    rx = repr(x)
+    try:
+        rx = repr(x)
+    except Exception as e:
+        return R({'expected': 'repr() of a T / Path works', 'observed': 'raised %r' % (e,), 'case': case}, 'repr-raises')
     where = {'expr': rx, 'case': case}
     if struct(x) != expected_struct(case):
         return R({'expected': 'root and steps as written: %r' % (expected_struct(case),), 'observed': repr(struct(x)), **where}, 'construction')
@@ -195,18 +198,22 @@ def run_roundtrip(case):
         y = eval(rx, dict(NS))
     except Exception as e:
         return R({'expected': 'eval(repr(x)) reconstructs the object', 'observed': 'eval(%r) raised %r' % (rx, e), **where}, 'repr-syntax')
-    for how, z in (('eval(repr)', y), ('pickle', None)):
-        if how == 'pickle':
+    import copy as _copy
+    for how, z in (('eval(repr)', y), ('pickle', None), ('pickle-0', 0), ('pickle-1', 1), ('pickle-2', 2), ('copy', None), ('deepcopy', None)):
+        if how.startswith('pickle') or how in ('copy', 'deepcopy'):
             try:
-                z = pickle.loads(pickle.dumps(x))
+                z = (_copy.copy(x) if how == 'copy' else _copy.deepcopy(x) if how == 'deepcopy' else
+                     pickle.loads(pickle.dumps(x) if z is None else pickle.dumps(x, protocol=z)))
             except Exception as e:
-                return R({'expected': 'pickle round trip', 'observed': 'raised %r' % (e,), **where}, 'pickle-fail')
+                return R({'expected': '%s round trip' % how, 'observed': 'raised %r' % (e,), **where}, 'pickle-fail')
         if not isinstance(z, (glom_mod.core.TType, Path)):
             return R({'expected': 'a T or Path', 'observed': '%s gives %r' % (how, z), **where}, 'wrong-type')
         if repr(z) != rx:
             return R({'expected': 'same repr %s' % rx, 'observed': '%s has repr %s' % (how, repr(z)), **where}, 'repr-differs')
         if struct(z) != struct(x):
             return R({'expected': 'same steps %r' % (struct(x),), 'observed': '%s has steps %r' % (how, struct(z)), **where}, 'struct-differs')
+        if how not in ('eval(repr)', 'pickle'):
+            continue   # the other copies are compared structurally only
         if case['root'] != 'T' and any(st[0] in 'xX' for st in case['steps']):
             continue   # wildcards over the interpreter's own scope object: structure checked above, evaluation not enumerated
         for target in mk_targets():
